@@ -23,6 +23,7 @@ CONSTANTS
   IndexFromSeq = FALSE
   IgnoreStaleAck = TRUE
   FinalAckAnyInWindow = FALSE
+  EchoClientAbort = FALSE
   IdleAcceptsAnySeq = FALSE
 INVARIANT AtMostOneOutcome
 INVARIANT ExactlyOneAtQuiescence
